@@ -182,7 +182,7 @@ def rule_recovery(ctx):
     ctx.check(to.get("CHECKING") in ("PENDING",), "startup.reset_interrupted_steps", "interrupted CHECKING -> PENDING", f"CHECKING -> {to.get('CHECKING')}", "PENDING")
     ri = ctx.prog.func("startup.reset_interrupted_steps")
     src = _norm(ast.unparse(ri.node))
-    ctx.check("failed_steps = workflow.steps(StepState.FAILED)" in src and "for step in failed_steps: workflow.mark_step_pending(step)" in src, ri.fq, "every FAILED step is re-pended through mark_step_pending", "FAILED steps are not run through the ordinary invalidation (BUILT outputs of an interrupted step stay trusted)", "mark_step_pending")
+    shared.check_failed_steps_retried(ctx, "a step that was RUNNING and detached at the kill is reset to FAILED by the raw update but not re-pended: after the restart it is reattached FAILED when an ancestor is recycled and skipped, and the build fails where the uninterrupted build succeeds")
     for st in ctx.sql.stmts_in(ri.fq):
         if st.kind == "UPDATE":
             ctx.check("detached" not in st.text, ri.fq, "raw reset also covers detached steps", "the reset filters on detached: a detached step that was running stays RUNNING for ever", "no detached filter")
@@ -270,6 +270,7 @@ RULES = [
 ]
 
 MUTANTS = [
+    Mutant("startup-retries-attached-only", "startup.py", in_function("reset_interrupted_steps", replace_once("workflow.steps(StepState.FAILED, include_detached=True)", "workflow.steps(StepState.FAILED)")), ("R-C05-3",)),
     Mutant("recycled-failed-stays-failed", "step.py", in_function("Step.after_recycle", replace_once("if state == StepState.FAILED or (\n            state == StepState.SUCCEEDED", "if (\n            state == StepState.SUCCEEDED")), ("R-C05-3",)),
     Mutant("delete-detached-only-after-runs", "builder.py", in_function("Builder.finalize", replace_once("            async with self.db:\n                self.workflow.delete_detached()\n", "            if self.scheduler.run_counter > 0:\n                async with self.db:\n                    self.workflow.delete_detached()\n")), ("R-C05-7",)),
     Mutant("sql-outside-region", "director.py", in_function("DirectorHandler.hold_dispatch", lambda s: s.replace("        async with self.db:\n            step = self.scheduler.get_job_step(job_i)\n            step.hold()\n", "        step = self.scheduler.get_job_step(job_i)\n        step.hold()\n") if "step.hold()" in s else None), ("R-C05-1",)),
